@@ -103,6 +103,10 @@ def _chunks(script, maxlines):
 def run_script(c, exe, script, tag, trace_module="TraceArgEval", timeout=600, env=None, shards=NCPU, maxlines=120000):
     """Runs a script through the driver (in pieces, so that no recorded trace exceeds the output limit) and
     validates every recorded trace with TLC.  Returns (rejections, path of the last trace)."""
+    if tag.startswith("R") and os.environ.get("VERIF_SKIP_R"):
+        # sensitivity experiments only (how much do the random traces find without the replay of the model behaviours?)
+        c.notes.append("%s skipped (VERIF_SKIP_R)" % tag)
+        return [], None
     pieces = _chunks(script, maxlines)
     allrej, tr = [], None
     stats = collections.Counter()
